@@ -162,3 +162,14 @@ Theorem C14_fuel_never_exhausted :
   (forall V buf f, (S (length V) <= f)%nat -> comparable_b_fuel f V buf = comparable_b V buf).
 Proof. split; [exact comparable_w_g_model|]. split; [exact comparable_w_fuel_independent|exact comparable_b_fuel_independent]. Qed.
 Print Assumptions C14_fuel_never_exhausted.
+
+(* M6 (second review): the fuel the model passes is never what decides an answer, on ARBITRARY inputs -- also for the loops
+   whose exhaustion is an ordinary value (None, Ok None, Ok buf, PErr, the input itself), about which `<> Err EFuel` says
+   nothing: any fuel above the one the model passes gives the same answer (FuelIndep.v) *)
+From JB Require FuelIndep.
+Theorem C14_fuel_is_never_decisive :
+  (forall k V buf, (length V < k)%nat -> ExtraFuel14.comparable_b_fuel k V buf = ComparableWalk.comparable_b V buf) /\
+  (forall g h, (forall V, (S (length V) <= g V)%nat) -> (forall V, (S (length V) <= h V)%nat) -> forall bs buf, ExtraFuel14.comparable_w_g g h bs buf = ComparableWalk.comparable_w bs buf) /\
+  (forall k bs i len j, (length bs < k)%nat -> Walk.rd_words k bs i len j = Walk.rd_words (S (length bs)) bs i len j).
+Proof. split; [exact FuelIndep.comparable_b_any_fuel|split; [exact ExtraFuel14.comparable_w_fuel_independent|exact FuelIndep.rd_words_any_fuel]]. Qed.
+Print Assumptions C14_fuel_is_never_decisive.
